@@ -236,7 +236,21 @@ def _run_impl(case, spill_dir):
     for inp in inputs:
         inp.exchange_info(fm.Info(time=t0, grid=fm.NoGrid()))
 
-    keys = list(out._connected_inputs.keys())
+    # the end points the output keeps a request time for, in registration (ping) order: for every input the push-based
+    # adapter closest to the output on its link, or the input itself (Input.ping / Adapter.pinged).  Computed through
+    # the public link structure; the output's own (private) registry is used when it exists and says otherwise.
+    keys = []
+    for inp in inputs:
+        end, node = inp, inp
+        while isinstance(getattr(node, "source", None), fm.IAdapter):
+            node = node.source
+            if node.needs_push:
+                end = node
+        if not any(end is k for k in keys):
+            keys.append(end)
+    reg = getattr(out, "_connected_inputs", None)
+    if reg is not None and [id(k) for k in reg.keys()] != [id(k) for k in keys]:
+        keys = list(reg.keys())
     key_idx = {id(k): i for i, k in enumerate(keys)}
     events = []
     real_get = out.get_data
